@@ -184,9 +184,22 @@ func mitmCase(c *mon.Case, r *mon.Run, sf base.ServerFactory, b o4.Bridge, t tam
 	synctest.Wait()
 	sw.Close()
 	wg.Wait()
-	w, _, _ := c2s.Snapshot()
+	w, _, cdata := c2s.Snapshot()
 	out.clientWrites = len(w)
+	noteRepr(r, "c", cdata)
+	_, _, sdata := s2c.Snapshot() // (transcript as the server wrote it, before the middlebox)
+	noteRepr(r, "s", sdata)
 	return out, applied
+}
+
+// noteRepr records the ephemeral representative (first 32 bytes) of a hello or
+// a genuine server response: across the whole run they must be pairwise distinct.
+func noteRepr(r *mon.Run, side string, data []byte) {
+	if len(data) < 32 {
+		return
+	}
+	r.Distinct("ephemeral_reprs", side+hex.EncodeToString(data[:32]))
+	r.Count("ephemeral_reprs_seen", 1)
 }
 
 func expectFail(c *mon.Case, r *mon.Run, class string, out outcome, w any) {
@@ -292,8 +305,9 @@ func impostorCase(c *mon.Case, r *mon.Run, victim o4.Bridge, mode string, record
 	cw.Close()
 	sw.Close()
 	wg.Wait()
-	w, _, _ := cw.Out().Snapshot()
+	w, _, cdata := cw.Out().Snapshot()
 	out.clientWrites = len(w)
+	noteRepr(r, "c", cdata)
 	return out
 }
 
@@ -500,7 +514,7 @@ func TestCheck(t *testing.T) {
 			for k := range reprs {
 				r.Distinct("ephemeral_reprs", k)
 			}
-			r.Count("ephemeral_reprs_seen", int64(len(reprs)))
+			r.Count("ephemeral_reprs_seen", 2*N)
 			r.Distinct("nontrivial", fmt.Sprintf("%d/concurrent", bi))
 		})
 	}
